@@ -410,6 +410,8 @@ func (ds *Dataset) StoreEntitiesWithTransaction(
 				if IsEntityEqual(prevLocalJSON, jsonData, prevLocalEntity, e) {
 					isDifferentLocally = false
 				}
+				// an earlier element of this batch supersedes the stored version as predecessor
+				isDifferent = isDifferentLocally
 
 			} else {
 				isDifferentLocally = false
